@@ -460,6 +460,7 @@ func runC19(c *Ctx) {
 				}
 				k := IOCase{Kind: "read-chunk", InputHex: hx, Chunks: []int{sp, 1 << 20}, FailAt: -1}
 				c.Eval(1)
+				c.Obs("split_points", 1)
 				c.NonTrivial(fmt.Sprintf("chunk|%s|%d", hx, sp))
 				if v := runReadChunk(k); v != "" {
 					ioViolate(c, k, fam+":split", v)
@@ -490,6 +491,7 @@ func runC19(c *Ctx) {
 				if fa%2 == 1 {
 					chunks = []int{1 + fa%5}
 				}
+				c.Obs("read_fault_positions", 1)
 				for ek := range failKinds {
 					if ek > 1 && (fa+i+ek)%3 != 0 {
 						continue // the first two kinds at every offset, the others at every third
@@ -511,8 +513,6 @@ func runC19(c *Ctx) {
 				}
 			}
 			c.Obs("read_documents", 1)
-			c.Obs("read_fault_positions", int64(len(data)+1))
-			c.Obs("split_points", int64(len(data)-1))
 		}
 		// ---------- writers ----------
 		for mode := 0; mode < nWriteModes; mode++ {
@@ -562,13 +562,13 @@ func runC19(c *Ctx) {
 			c.Sample(map[string]interface{}{"values": model.FmtAll(vals), "reader_cases": "every split point, 8 chunk patterns x EOF-with-data, read failure at every byte offset (text and binary renderings)", "writer_cases": "write failure at every write call x {persistent, once} x {rejected, partially accepted} x 4 writer configurations"})
 		}
 	})
-	c.Exhaustive("per document: every single split point; read failure at every byte offset 0..len; write failure at every write call index (thinned to every third index in the middle of runs longer than 60 calls) in 4 fault models")
+	c.Exhaustive("per document up to 3000 bytes: every single split point; read failure at every byte offset 0..len (documents beyond 3000 bytes: about 150 evenly spread positions plus 4095, 4096, 4097 and 8192); write failure at every write call index (thinned to every third index in the middle of runs longer than 60 calls) in 4 fault models")
 	_ = refsym.System
 }
 
 func init() {
 	Register(&Monitor{ID: "C19", Run: func(c *Ctx) {
-		c.Rule = "documents from both reference producers read through instrumented io.Readers: every split point, byte-at-a-time and mixed chunk sizes, (0,nil) reads, data delivered together with io.EOF -> values and final error string must equal the one-piece read; a persistent read failure injected at every byte offset -> Err() != nil. Value streams written through instrumented io.Writers failing at every write call index (persistent / once, rejected / partially accepted) in 4 writer configurations -> some call up to Finish errs, every later call errs, accepted bytes are a prefix of the fault-free output. Non-trivial: the split/fault position is strictly inside the document / write sequence; distinct by (document, position, model)."
+		c.Rule = "documents from both reference producers read through instrumented io.Readers: every split point, byte-at-a-time and mixed chunk sizes, (0,nil) reads, data delivered together with io.EOF -> values and final error string must equal the one-piece read, and so must the results of a Decoder.Decode loop examined only after the stream ended and of a traversal that skips containers and leaves them early; the same traversal over a seekable source (bytes.Reader) and over sources whose Seek fails (a pipe); payloads (strings, lobs, containers) longer than the readers' buffers; a read failure of six kinds (plain error, io.ErrUnexpectedEOF bare and wrapped, closed pipe, timeout, io.ErrNoProgress) injected at every byte offset -> Err() != nil. Value streams written through instrumented io.Writers failing at every write call index (persistent / once, rejected / partially accepted) in 4 writer configurations -> some call up to Finish errs, every later call errs, accepted bytes are a prefix of the fault-free output. Non-trivial: the split/fault position is strictly inside the document / write sequence; distinct by (document, position, model)."
 		c.Assume("read failures are persistent (an io.Reader that failed keeps failing); write failures use both models")
 		runC19(c)
 	}, Replay: func(c *Ctx, v *Violation) string {
